@@ -143,27 +143,32 @@ theorem C14_create_if_missing_idempotent_flags (cj : Bool) (r : Req) (c c1 : Cat
     createTableG Extracted.createPassesIfNotExists Extracted.createDedupes true cj r c1 = .ok c1 :=
   createTableG_idempotent _ _ cj r c c1 h
 
-/-- Full statement "what `createTable()` made, plain `dropTable()` removes" is false of the current code for a
-    self-referential join declared in both directions: the link table is created once (`_getJoinsToCreate`
-    skips the second listing) but dropped twice (`dropJoinTables` does not), and the second DROP fails. -/
-theorem C14_plain_drop_after_create_full_FALSE :
-    ¬ (∀ (r : Req) (c c1 : Cat),
-        createTableG Extracted.createPassesIfNotExists Extracted.createDedupes false true r c = .ok c1 →
-        ∃ c2, dropTableG Extracted.dropPassesIfExists Extracted.dropDedupes false true r c1 = .ok c2) := by
-  intro h
-  have e1 : createTableG Extracted.createPassesIfNotExists Extracted.createDedupes false true
-      ⟨[116], [[108], [108]], []⟩ ⟨[], []⟩ = .ok ⟨[[116], [108]], []⟩ := by rfl
-  obtain ⟨c2, h2⟩ := h ⟨[116], [[108], [108]], []⟩ ⟨[], []⟩ ⟨[[116], [108]], []⟩ e1
-  have e2 : dropTableG Extracted.dropPassesIfExists Extracted.dropDedupes false true
-      ⟨[116], [[108], [108]], []⟩ ⟨[[116], [108]], []⟩ = .error () := by rfl
-  rw [e2] at h2; cases h2
-
-/-- …and holds when no link table is listed twice (`C14_drop_after_create_restores` above is the
-    statement for the plain pair of operations). -/
-theorem C14_plain_drop_after_create_partial {r : Req} {c c1 : Cat} (h1 : createTable false r c = .ok c1) :
-    ∃ c2, dropTable false r c1 = .ok c2 ∧ c2.tables = c.tables := by
-  obtain ⟨c2, h2, h3, _⟩ := drop_after_create_ok h1
+/-- What plain `createTable()` made, plain `dropTable()` removes again — it succeeds and the table list is as
+    before — for every link list, including a link table listed twice (self-referential join declared in both
+    directions): create and drop select and de-duplicate the joins the same way (read from the source:
+    `Extracted.createDedupes = Extracted.dropDedupes`).  Was false before bf4c6fa (second DROP of the same link
+    table); the witness `links = [l, l]` is the example below and the self-join scenario of the harness. -/
+theorem C14_plain_drop_after_create (r : Req) (c c1 : Cat)
+    (h : createTableG Extracted.createPassesIfNotExists Extracted.createDedupes false true r c = .ok c1) :
+    ∃ c2, dropTableG Extracted.dropPassesIfExists Extracted.dropDedupes false true r c1 = .ok c2 ∧
+      c2.tables = c.tables := by
+  have hd : Extracted.dropDedupes = Extracted.createDedupes := by decide
+  rw [hd]
+  have e1 : ∀ p d, createTableG p d false true r c = createTable false ⟨r.table, linksOf d r.links, r.idx⟩ c := by
+    intro p d
+    simp only [createTableG, createTable, Bool.false_eq_true, false_and, if_false, Bool.and_false, if_true]
+    split
+    · rfl
+    · cases createLinks false (linksOf d r.links) (addTbl r.table c) <;> rfl
+  have e2 : ∀ p d, dropTableG p d false true r c1 = dropTable false ⟨r.table, linksOf d r.links, r.idx⟩ c1 := by
+    intro p d; simp [dropTableG, dropTable]
+  rw [e1] at h
+  rw [e2]
+  obtain ⟨c2, h2, h3, _⟩ := drop_after_create_ok h
   exact ⟨c2, h2, h3⟩
+
+example : dropTableG Extracted.dropPassesIfExists Extracted.dropDedupes false true
+    ⟨[116], [[108], [108]], []⟩ ⟨[[116], [108]], []⟩ = .ok ⟨[], []⟩ := by rfl
 
 /-! ### addColumn / delColumn with changeSchema -/
 
